@@ -32,6 +32,15 @@ def step (_ : Unit) (fields : List String) (impl : String) : Unit × Reply :=
       let ok := i > 0 && k > 0 && holdsX k o
       ((), ⟨"accepted-by-model=" ++ boolStr ok, ok, true, ok, "-"⟩)
     | _, _ => ((), .bad)
+  | ["wsdead", i, _] =>
+    -- a WebSocket peer that stops answering: the ping timeout counts as a failed keepalive, the transport is
+    -- closed and the loss reported once (within twice the ping timeout)
+    match i.toNat? with
+    | some i =>
+      let m := kvs impl
+      let ok := i > 0 && (m.lookup "returned") == some "true" && nat m "disc" == 1 && nat m "errh" == 1
+      ((), ⟨"accepted-by-model=" ++ boolStr ok, ok, true, ok, "-"⟩)
+    | none => ((), .bad)
   | ["tlsrun", i, t] =>
     -- keepalives of a STARTTLS session: they arrive inside the TLS session (at most one per tick, not far fewer),
     -- and the server's TLS layer never saw anything that made it give the stream up
